@@ -465,6 +465,31 @@ where
                 self.ensure(a.max(b));
                 eq_slots(&self.slots[a], &self.slots[b])
             }
+            ["cycle", s, max] => {
+                // length of the cycle through the current state under native stepping, up to `max`
+                let (s, max) = match (num(s), num(max)) { (Some(s), Some(m)) => (s, m), _ => return "bad-op".into() };
+                self.ensure(s);
+                with_gen!(&mut self.slots[s], g => {
+                    let start = g.clone();
+                    let mut k = 0usize;
+                    loop {
+                        g.next_u32();
+                        k += 1;
+                        if g.eq_(&start) == Some(true) { break k.to_string(); }
+                        if k >= max { break "none".to_string(); }
+                    }
+                }, else "unsupported".into())
+            }
+            ["rt", d, s] => {
+                // serde round trip in-process: d = deserialize(serialize(s))
+                let (d, s) = match (num(d), num(s)) { (Some(d), Some(s)) => (d, s), _ => return "bad-op".into() };
+                self.ensure(s);
+                let c: Option<Slot<F>> = rt_gen(&self.slots[s]);
+                match c {
+                    Some(c) => { self.put(d, c); "ok".into() }
+                    None => { self.put(d, Slot::Empty); "unsupported".into() }
+                }
+            }
             ["de", d, kind, hexs] => {
                 let (d, bytes) = match (num(d), unhex(hexs)) { (Some(d), Some(b)) => (d, b), _ => return "bad-op".into() };
                 self.put(d, Slot::Empty);
@@ -585,6 +610,22 @@ fn clone_gen<F>(s: &Slot<F>) -> Option<Slot<F>> {
     for_all_gens! {arms}
 }
 
+fn rt_gen<F>(s: &Slot<F>) -> Option<Slot<F>> {
+    macro_rules! arms {
+        ($($t:ident),*) => {
+            match s {
+                $( Slot::$t(g) => {
+                    let bytes = g.ser_()?;
+                    let back = <$t as Gen>::de_(&bytes)??;
+                    Some(Slot::$t(Box::new(back)))
+                } )*
+                _ => None,
+            }
+        };
+    }
+    for_all_gens! {arms}
+}
+
 fn eq_slots<F>(a: &Slot<F>, b: &Slot<F>) -> String {
     macro_rules! arms {
         ($($t:ident),*) => {
@@ -603,7 +644,7 @@ fn eq_slots<F>(a: &Slot<F>, b: &Slot<F>) -> String {
 fn run<F, M>(mk_timer: M)
 where
     F: Fn() -> u64 + Send + Sync + Clone + 'static,
-    M: Fn(Arc<TimerScript>) -> F,
+    M: Fn(Arc<TimerScript>) -> F + Send + Sync,
 {
     // compile-time: every deterministic generator is Send + Sync (C19)
     fn assert_send_sync<T: Send + Sync>() {}
@@ -612,22 +653,54 @@ where
     assert_send_sync::<JitterRng<F>>();
     let _ = <rand_isaac::isaac::IsaacCore as BlockRngCore>::Results::default();
 
-    let mut m = Machine { slots: Vec::new(), mk_timer };
-    let stdin = io::stdin();
-    let stdout = io::stdout();
-    let mut out = io::BufWriter::new(stdout.lock());
-    for line in stdin.lock().lines() {
-        let line = match line { Ok(l) => l, Err(_) => break };
-        let toks: Vec<&str> = line.split_whitespace().collect();
-        let res = catch_unwind(AssertUnwindSafe(|| m.exec(&toks)));
-        let text = match res {
+    let m = Arc::new(std::sync::Mutex::new(Machine { slots: Vec::new(), mk_timer }));
+    let exec_line = |m: &std::sync::Mutex<Machine<F, M>>, toks: &[&str]| -> String {
+        let mut guard = m.lock().unwrap_or_else(|e| e.into_inner());
+        let res = catch_unwind(AssertUnwindSafe(|| guard.exec(toks)));
+        match res {
             Ok(s) => s,
             Err(payload) => {
                 if payload.is::<Exhausted>() { "blocked".to_string() } else { "panic".to_string() }
             }
-        };
-        writeln!(out, "{}", text).unwrap();
-    }
+        }
+    };
+    let stdin = io::stdin();
+    let stdout = io::stdout();
+    let mut out = io::BufWriter::new(stdout.lock());
+    // `@<t> <cmd>`: execute the command on worker thread t (generators move between OS threads,
+    // the global order of commands is the scripted interleaving)
+    std::thread::scope(|scope| {
+        type Job = (String, std::sync::mpsc::Sender<String>);
+        let mut workers: Vec<Option<std::sync::mpsc::Sender<Job>>> = Vec::new();
+        for line in stdin.lock().lines() {
+            let line = match line { Ok(l) => l, Err(_) => break };
+            let text = if let Some(rest) = line.strip_prefix('@') {
+                let (t, cmd) = match rest.split_once(' ') { Some(x) => x, None => (rest, "") };
+                let t: usize = t.parse().unwrap_or(0) % 16;
+                while workers.len() <= t { workers.push(None); }
+                if workers[t].is_none() {
+                    let (tx, rx) = std::sync::mpsc::channel::<Job>();
+                    let m2 = m.clone();
+                    let exec_ref = &exec_line;
+                    scope.spawn(move || {
+                        for (cmd, reply) in rx {
+                            let toks: Vec<&str> = cmd.split_whitespace().collect();
+                            let _ = reply.send(exec_ref(&m2, &toks));
+                        }
+                    });
+                    workers[t] = Some(tx);
+                }
+                let (rtx, rrx) = std::sync::mpsc::channel();
+                workers[t].as_ref().unwrap().send((cmd.to_string(), rtx)).unwrap();
+                rrx.recv().unwrap_or_else(|_| "panic".to_string())
+            } else {
+                let toks: Vec<&str> = line.split_whitespace().collect();
+                exec_line(&m, &toks)
+            };
+            writeln!(out, "{}", text).unwrap();
+        }
+        drop(workers);
+    });
     out.flush().unwrap();
 }
 
